@@ -265,6 +265,7 @@ func evalOutcome(fg *value.FunctionGenerator, src string, names []string, args [
 			out = fmt.Sprintf("PANIC %v", r)
 		}
 	}()
+	crumb("program: " + src)
 	f, _, err := fg.Generate(src, names...)
 	if err != nil {
 		return "GENERR"
